@@ -24,6 +24,14 @@ DETECTORS = {'curvature': 3, 'dfdt': 3, 'menger': 4, 'lmethod': 4, 'kneedle': 3}
 @st.composite
 def cases(draw, tier):
     c = draw(S.curves(2, 60 if tier == 'quick' else 300, big_n=160 if tier == 'quick' else 600))
+    if draw(st.integers(0, 5)) == 0:
+        # small-valued integer curves (counters, percentages): also handed over as an int64 array below
+        n = draw(st.integers(2, 40))
+        x = draw(S.xs(n, integer=True))
+        ys = draw(st.lists(st.integers(0, draw(st.sampled_from([12, 30, 100]))), min_size=n, max_size=n))
+        if draw(st.booleans()):
+            ys = sorted(ys, reverse=True)
+        c = {'family': 'small-int', 'pts': [[float(a), float(b)] for a, b in zip(x, ys)]}
     det = draw(st.sampled_from(sorted(DETECTORS)))
     mode = draw(st.sampled_from(['zero', 'occurring', 'occurring', 'std']))
     if mode == 'zero':
@@ -33,12 +41,16 @@ def cases(draw, tier):
     else:
         t1 = draw(S.thresholds(c['pts'], 'smape'))
     return {'family': c['family'], 'pts': c['pts'], 'detector': det, 't1': t1,
-            't2': DETECTORS[det] + draw(st.integers(0, 6))}
+            't2': DETECTORS[det] + draw(st.integers(0, 6)), 'int_points': draw(st.booleans())}
 
 
 def oracle(case, rec):
     L = lib.lib()
-    p = lib.pts_of(case)
+    pf = lib.pts_of(case)
+    p = pf
+    if case.get('int_points') and np.all(pf == np.floor(pf)) and float(np.max(np.abs(pf))) < 2 ** 30:
+        p = pf.astype(np.int64)          # an integer-typed curve is the same curve (gate values from the float one)
+        rec.tag('points:int64')
     n = len(p)
     det = case['detector']
     mod = getattr(L, det)
@@ -67,7 +79,7 @@ def oracle(case, rec):
     gate_size = n <= t2
     if n > 2:
         with np.errstate(all='ignore'):
-            sm = float(L.lf.smape_points(p, L.lf.linear_fit_points(p)))
+            sm = float(L.lf.smape_points(pf, L.lf.linear_fit_points(pf)))
     else:
         sm = None
     straight = sm is not None and sm < t1
@@ -107,7 +119,8 @@ def oracle(case, rec):
             if len(seg) <= t2 or len(seg) <= 2:
                 continue
             with np.errstate(all='ignore'):
-                if float(L.lf.smape_points(seg, L.lf.linear_fit_points(seg))) < t1:
+                segf = pf[l:r]
+                if float(L.lf.smape_points(segf, L.lf.linear_fit_points(segf))) < t1:
                     continue
             kk = rec.call(bound, mod.knee, seg, _site=det + '.knee')
             if kk is FAILED:
